@@ -1,0 +1,27 @@
+//go:build verif
+// +build verif
+
+package utils
+
+import "sync/atomic"
+
+var verifMaxAlloc int64
+
+// verifAlloc records the largest buffer length requested through ByteBuffer.ChangeLen.
+func verifAlloc(n int) {
+	for {
+		old := atomic.LoadInt64(&verifMaxAlloc)
+		if int64(n) <= old || atomic.CompareAndSwapInt64(&verifMaxAlloc, old, int64(n)) {
+			return
+		}
+	}
+}
+
+// VerifMaxAlloc returns the largest length requested through ByteBuffer.ChangeLen
+// since the last reset, and resets it when reset is true.
+func VerifMaxAlloc(reset bool) int64 {
+	if reset {
+		return atomic.SwapInt64(&verifMaxAlloc, 0)
+	}
+	return atomic.LoadInt64(&verifMaxAlloc)
+}
